@@ -12,7 +12,7 @@ pub fn def() -> CheckDef {
         bounds_quick: "lax half: pairs of lax diagrams with <=2 nodes, <=1 hyperedge, <=1 pending pair each (<=6 node references per pair, all wirings enumerated, labels symbolic), triples of <=1-node diagrams; strict half: pairs: per operand W<=2, X<=1, S,T<=2, interfaces<=2 (whole box); triples: W<=1, X<=1, S,T<=1, interfaces<=1; unit laws on the pair box",
         bounds_thorough: "pairs W<=3, X<=2, S,T<=3, interfaces<=2; triples W<=2, X<=1",
         jobs,
-        budget_s: (120, 2400),
+        budget_s: (120, 1500),
     }
 }
 
